@@ -31,6 +31,8 @@ var patchKinds = map[string]string{
 	"ietf-json-patch":      `{"action":"ietf-json-patch","patches":[{"op":"add","path":"/other","value":{"n":1}}]}`,
 	"add-also-known-as":    `{"action":"add-also-known-as","uris":["https://aka.example/"]}`,
 	"remove-also-known-as": `{"action":"remove-also-known-as","uris":["https://aka.example/"]}`,
+	// (not in kindOrder) sixty numbers whose canonical text, 100000000000000000000, is five times as long as the spelling 1e20
+	"json-numbers": `{"action":"ietf-json-patch","patches":[{"op":"add","path":"/n","value":[` + strings.TrimSuffix(strings.Repeat("1e20,", 60), ",") + `]}]}`,
 }
 
 var kindOrder = []string{"replace", "add-public-keys", "remove-public-keys", "add-services", "remove-services", "ietf-json-patch", "add-also-known-as", "remove-also-known-as"}
@@ -129,6 +131,11 @@ func Run(r *core.Run) {
 			addReq(fmt.Sprintf("valid/%s/sha512-reveal", typ), typ, k, "add-also-known-as", mk(typ, k, "add-also-known-as", 18, 19, nil))
 		}
 		if typ != "deactivate" {
+			// the same request as it may arrive on the wire: numbers in exponent form, so that the request is shorter than its own
+			// canonical delta (all size limits are defined on what they name: the request as received, the delta in canonical form)
+			wire := mk(typ, k, "json-numbers", 18, 18, nil)
+			compact := bytes.ReplaceAll(ops.Bytes(wire), []byte("100000000000000000000"), []byte("1e20"))
+			reqs = append(reqs, reqCase{fmt.Sprintf("valid/%s/numbers-in-exponent-form", typ), typ, k, "json-numbers", wire, compact})
 			addReq(fmt.Sprintf("valid/%s/sha512-all", typ), typ, k, "add-also-known-as", mk(typ, k, "add-also-known-as", 19, 19, M{"o": 1.0}))
 			addReq(fmt.Sprintf("valid/%s/no-origin", typ), typ, k, "add-public-keys", mk(typ, k, "add-public-keys", 18, 18, nil))
 		}
